@@ -94,6 +94,7 @@ template <class G> void c08(Reporter &R, const std::string &cls, const GraphSpec
         unlink(bp.c_str());
         std::ostringstream os;
         os << g;
+        R.digest(os.str() + snapshot(g));
     } catch (std::exception &ex) {
         R.violation(cls + "/writer/threw", std::string("threw ") + ex.what() + " on " + s.str());
     }
